@@ -520,7 +520,7 @@ class Assembler:
             body = '{ ' + ed.apply(s.text, s.t[kbody][1], s.t[j - 1][2]) + ' }'
         res = spec.get('result')
         ret = lf['ret']
-        head = 'pub fn %s(%s) -> %s\n' % (lf['name'], subst(lf['params']), ('(%s: %s)' % (res, ret)) if res else ret)
+        head = 'pub fn %s%s(%s) -> %s\n' % (lf['name'], lf.get('generics', ''), subst(lf['params']), ('(%s: %s)' % (res, ret)) if res else ret)
         txt = self.clauses('requires', [subst(x) for x in spec.get('requires', [])], '    ', fnname)
         ens = [subst(x) for x in spec.get('ensures', [])]
         txt += self.clauses('ensures', ens, '    ', fnname)
